@@ -670,7 +670,10 @@ def rand_udp_programs(seed, n, path):
             if k % 1000 == 1:
                 f.write(json.dumps(long_drain_program(rng, 12000)) + "\n")
             else:
-                f.write(json.dumps(rand_udp_program(rng)) + "\n")
+                p = rand_udp_program(rng)
+                if k % 10 == 7:
+                    p["topo"]["default"] = True   # the library's own default_config behind the probes
+                f.write(json.dumps(p) + "\n")
 
 
 MC_UDP_TOPO = {"tick_ns": 10, "dmtu": 100,
@@ -859,6 +862,13 @@ def tcp_topo(rng, lossy, nat):
         topo["mtu"] += [{"a": "A1", "b": "B1", "m": pair}, {"a": "B1", "b": "A1", "m": pair}]
     if rng.random() < 0.6:
         topo["net"] = {"lat": lat(), "cap": cap(), "bw": bw()}
+    if rng.random() < 0.12:
+        # the library's own default_config (wrapped in probes): 200 kB/s up, 800 kB/s down, 1 ms + 200 kB modem queues, 30 ms network
+        topo["default"] = True
+        topo["dmtu"] = 1475
+        topo["mtu"] = []
+        topo.pop("net", None)
+        mssv = 1475
     return topo, mssv
 
 
